@@ -68,7 +68,7 @@ def execute(record: dict, rng: Optional[random.Random]) -> Outcome:
         transport=cfg.get("transport", 0.0),
         task_transport=dcfg.get("task_transport", False),
         recompute=0.2 if dcfg.get("recompute") else 0.0,
-        pure=lambda c: str(c[0]).startswith("chunks"),
+        pure=lambda c, data, value: str(c[0]).startswith("chunks"),
         stall=dcfg.get("stall", 0.0),
         kernel=kernel,
     )
